@@ -525,6 +525,19 @@ fn oracle_c12(t: &LspTrace, h: &History, stats: &mut Stats) -> Vec<Violation> {
                 }
                 if matching == 1 {
                     stats.count("c12.requests_answered");
+                    // "a result, or an error for methods it does not implement"
+                    let r = responses.iter().find(|r| &r["id"] == id).unwrap();
+                    let has_error = r.get("error").map(|e| !e.is_null()).unwrap_or(false);
+                    let has_result = r.get("result").is_some();
+                    if has_error && has_result && !r["result"].is_null() {
+                        out.push(viol("C12", format!("C12/result-and-error/method={m}"), format!("the response to {} carries both a result and an error: {}", short(&step.sent), short(r))));
+                    }
+                    if step.label == "unknownRequest" && !has_error {
+                        out.push(viol("C12", format!("C12/unimplemented-method-without-error/method={m}"), format!("{} is not implemented by this server but was answered with {}", short(&step.sent), short(r))));
+                    }
+                    if (m == "initialize" || m == "shutdown") && has_error {
+                        out.push(viol("C12", format!("C12/handshake-error/method={m}"), format!("{m} was answered with {}", short(r))));
+                    }
                 }
             } else if !responses.is_empty() {
                 let what = if is_response(&step.sent) { "client-response".to_string() } else { format!("notification={m}") };
